@@ -3,6 +3,7 @@
 mod explore;
 mod fam_lifecycle;
 mod fam_mailbox;
+mod fam_mailbox_t;
 mod fam_pg;
 mod tdrv;
 mod hctl;
@@ -56,6 +57,7 @@ fn main() {
     // every family module exposes `dispatch(cmd, args) -> Option<summary>`
     let fams: &[fn(&str, &HashMap<String, String>) -> Option<serde_json::Value>] = &[
         fam_mailbox::dispatch,
+        fam_mailbox_t::dispatch,
         fam_lifecycle::dispatch,
         fam_pg::dispatch,
     ];
